@@ -146,10 +146,26 @@ def targeted(rng, tier):
         out.append(t.fmt())
     return out
 
+def reapply(rng):
+    """the same functor applied twice to the same operands with the first result destroyed (or kept) in between, interleaved with
+    other applications and destructions: exercises whatever the functor objects cache between top-level applications"""
+    nv = rng.choice((1, 2, 2, 3))
+    def asg(): return "".join(rng.choice("01X") for _ in range(nv))
+    steps = ["C 0 %s %d %d" % (asg(), rng.randrange(3), rng.randrange(3)), "C 1 %s %d %d" % (asg(), rng.randrange(3), rng.randrange(3))]
+    if rng.random() < 0.5: steps.append("B 9 %d 0 1" % rng.randrange(2))
+    f = rng.randrange(2)
+    steps.append("B 2 %d 0 1" % f)
+    steps.append(rng.choice(["D 2", "D 2", "Y 5 2", "D 2"]))
+    if rng.random() < 0.3: steps.append("U 6 %d 0" % rng.randrange(2))
+    steps.append("B 3 %d 0 1" % f)
+    steps += rng.sample(["D 3", "D 0", "D 1"], 3)
+    if rng.random() < 0.5: steps.insert(len(steps) - 2, "B 4 %d 3 3" % f) if "D 3" not in steps[:len(steps) - 2] else None
+    return "c18 %s %d %s" % (rng.choice("us"), nv, " ".join(x for x in steps if x))
 def cases(rng, tier):
     cs = [(l, "corpus") for l in CORPUS]
     cs += [(l, "exhaustive") for l in exhaustive(tier)]
     cs += [(l, "targeted") for l in targeted(rng, tier)]
+    cs += [(reapply(rng), "targeted_reapply") for _ in range(400 if tier == "quick" else 6000)]
     n = 6000 if tier == "quick" else 100000
     for _ in range(n):
         dom = rng.choice("us")
@@ -167,6 +183,7 @@ EXHAUSTIVE_SLICES = ("ALL histories of exactly 1, 2 and 3 steps over 1 variable 
                      "a whole is not exhaustive)")
 
 CORPUS = [
+    "c18 u 2 C 0 10 1 0 C 1 X1 2 0 B 2 0 0 1 D 2 B 3 0 0 1 D 3 D 0 D 1",
     "c18 u 0 K 0 1 D 0",
     "c18 u 2 C 0 X 2 1 C 1 X 1 1 E 2 1 1 1",
     "c18 u 1 C 0 1 1 0 A 0 0 D 0",
